@@ -1061,6 +1061,12 @@ def impl(case):
                 ok = False
             except dns.zone.DigestVerificationFailure:
                 pass
+            # RFC 8976 4: the digest placed in the apex ZONEMD RRset verifies (the RRset is excluded from its own input)
+            try:
+                z.find_rdataset(dns.name.empty if rel else N(origin), 63, create=True).add(zmd, 300)
+                z.verify_digest()
+            except Exception:
+                ok = False
             return [log[0], int(ok)]
         if op == 8:
             _, origin, rel, nodes = case
